@@ -338,6 +338,13 @@ func targets() []*target {
 			params: []string{"(h_zero : hop)", "(f_growcap : nat -> nat)", "(s_Logger : lgr)", "(s_ops : hslice)", "(op : hop)", "(heap_ : heap hop)"},
 			result: "option (hnd * heap hop)", final: "None"},
 
+		// ---- PrintCtx.setentry and PrintCtx.set in full (C09): every field of the context is a binder and is handed
+		// back, so the VALUE each field gets is tied (the first-generation pc_setentry keeps the two mode bits) ----
+		pcT("setentry", "pc_setentry_full", []string{"(e_useJSON e_useColor : bool)", "(e_timeLayout : bytes)", "(e_modeUTC : Z)", "(e_valueStringer : Z)", "(e_level : Z)", "(e_attrs : list attr)", "(g_flags : Z)"}, nil),
+		pcT("set", "pc_set_full", []string{"(e_useJSON e_useColor : bool)", "(e_timeLayout : bytes)", "(e_modeUTC : Z)", "(e_valueStringer : Z)", "(e_level : Z)", "(e_attrs : list attr)", "(g_flags : Z)",
+			"(e : Z)", "(lvl : Z)", "(timestamp : Z)", "(stackFrame : Z)", "(msg : bytes)", "(kvps : list attr)"},
+			map[string]callSpec{"*PrintCtx.setentry": {state: "pc_setentry_full " + strings.Join(pcFieldNames(), " ") + " e_useJSON e_useColor e_timeLayout e_modeUTC e_valueStringer e_level e_attrs g_flags", partial: true}}),
+
 		// ---- RegisterLevel (C17): the options arrive resolved (the regPack fields after every opt ran: o_*);
 		// the seven tables are the state the function hands back; a map write overwrites (mapZ_set / mapB_set) ----
 		{pkg: slogPkg, recv: "", fn: "RegisterLevel", coq: "register", file: "Registry", strict: true, fallback: "RegRef.register_ref",
@@ -387,6 +394,36 @@ func targets() []*target {
 		// the io.Writer is an oracle: it answers (w_m, w_e); what it was handed is the trace tr_
 		bufT("WriteTo", "buf_write_to", []string{"(w : unit)", "(w_m : Z)", "(w_e : err)", "(tr_ : list bytes)"}, "bres (Z * err) (bstate * list bytes)", "", true),
 	}
+}
+
+// the fields of PrintCtx in declaration order, with their Coq types
+var pcFields = [][2]string{{"buf", "gslice"}, {"off", "Z"}, {"lastRead", "Z"}, {"noQuoted", "bool"}, {"jsonMode", "bool"}, {"noColor", "bool"},
+	{"layout", "bytes"}, {"utcTime", "Z"}, {"dedupeAttrs", "bool"}, {"lvl", "Z"}, {"msg", "bytes"}, {"firstLine", "bytes"}, {"restLines", "bytes"},
+	{"eol", "bool"}, {"kvps", "list attr"}, {"clr", "Z"}, {"bg", "Z"}, {"now", "Z"}, {"stackFrame", "Z"}, {"cachedSource", "bytes * Z * bytes"},
+	{"prefix", "bytes"}, {"inGroupedMode", "bool"}, {"skipFirstSep", "bool"}, {"valueStringer", "Z"}}
+
+func pcFieldNames() []string {
+	var out []string
+	for _, f := range pcFields {
+		out = append(out, "s_"+f[0])
+	}
+	return out
+}
+
+// pcT: setentry / set on ALL fields of the context; None = a slice expression out of range
+func pcT(fn, coq string, params []string, calls map[string]callSpec) *target {
+	var ps, tys []string
+	for _, f := range pcFields {
+		ps = append(ps, "(s_"+f[0]+" : "+f[1]+")")
+		tys = append(tys, paren(f[1]))
+	}
+	tup := "(" + strings.Join(pcFieldNames(), ", ") + ")"
+	return &target{pkg: slogPkg, recv: "PrintCtx", fn: fn, coq: coq, file: "Context", strict: true, fallback: "PcRef." + coq + "_ref",
+		comment: "(returns every field of the context; None = panic)", panicT: "None", retfmt: "Some (%s)", effects: pcFieldNames(),
+		tymap: map[string]string{"[]byte": "gslice", "Attrs": "list attr", "time.Time": "Z", "uintptr": "Z", "Source": "bytes * Z * bytes", "ValueStringer": "Z", "*Entry": "Z"},
+		opaque: map[string]string{"e.useJSON": "e_useJSON", "e.useColor": "e_useColor", "e.timeLayout": "e_timeLayout", "e.modeUTC": "e_modeUTC",
+			"e.valueStringer": "e_valueStringer", "e.level": "e_level", "e.attrs": "e_attrs"},
+		calls: calls, params: append(ps, params...), result: "option (" + strings.Join(tys, " * ") + ")", final: "Some " + tup}
 }
 
 // bufT: a method of PrintCtx on the state (s.buf, s.off, s.lastRead).  A []byte is a gslice (visible part,
@@ -463,6 +500,7 @@ var genFiles = [][2]string{
 	{"Registry", "Require Import Verif.Model.Base Verif.Model.Decision Verif.Model.Dec Verif.Model.GoSem Verif.Model.Level Verif.Model.RegRef."},
 	{"Loggers", "Require Import Verif.Model.Base Verif.Model.Decision Verif.Model.GoSem Verif.Model.TreeRef."},
 	{"Handlers", "Require Import Verif.Model.Base Verif.Model.Decision Verif.Model.GoSem Verif.Model.AdaptRef."},
+	{"Context", "Require Import Verif.Model.Base Verif.Model.Decision Verif.Model.GoSem Verif.Model.Attrs Verif.Model.PcRef."},
 	{"LevelNames", "Require Import Verif.Model.Base Verif.Model.Decision Verif.Model.Dec Verif.Model.GoSem Verif.Model.LevelRef."},
 }
 
